@@ -265,8 +265,9 @@ def r08_7(ctx):
         lp = loops[0]
         body = lp.extra[0] if len(lp.extra) == 1 else None
         if body is not None and U(lp.node[2]) == "parameter":
-            calls = [U(e.node) for e in body.events if e.kind == "call"]
-            ok = any(c.startswith("params.append(Parameter(split_var_decl(param@iter)[1], get_value_type_by_c_type(split_var_decl(param@iter)[0])))") for c in calls)
+            item = U(lp.node[1]) + "@iter"
+            calls = [U(e.node).replace(item, "ITEM") for e in body.events if e.kind == "call"]
+            ok = any(c.endswith(".append(Parameter(split_var_decl(ITEM)[1], get_value_type_by_c_type(split_var_decl(ITEM)[0])))") and c.split(".append(")[0] == U(v.args[2]) for c in calls)
     ctx.check("each `<type> <id>` string becomes Parameter(id, type), in order", ok, "for param in parameter: params.append(Parameter(pname, get_value_type_by_c_type(ptype)))", "loop shape differs" if not ok else "ok", w)
     tcalls = [e.node for e in p.events if e.kind == "call" and call_name(e.node) == "RZILTransformer"]
     kw = {k.arg: U(k.value) for k in tcalls[0].keywords} if tcalls else {}
